@@ -370,6 +370,7 @@ def populate_summary(stmts: list[ast.stmt]) -> tuple[dict[str, dict[str, object]
     env: dict[str, object] = {}
     tables: dict[str, dict[str, object]] = {t: {} for t in TABLES}
     problems: list[str] = []
+    aliases: dict[str, str] = {}
 
     def val(e: ast.expr) -> object:
         if isinstance(e, ast.Name):
@@ -395,6 +396,15 @@ def populate_summary(stmts: list[ast.stmt]) -> tuple[dict[str, dict[str, object]
             problems.append(f"store into {norm(t)[:40]}")
 
     for st in stmts:
+        if isinstance(st, ast.Expr) and isinstance(st.value, ast.Call) and isinstance(st.value.func, ast.Attribute) and st.value.func.attr == "update" \
+                and isinstance(st.value.func.value, ast.Name) and len(st.value.args) == 1 and not st.value.keywords:
+            # X.update(B) on a local copy: X holds the merge of what it held and B
+            x = st.value.func.value.id
+            merged = ("merge", env.get(x, "?"), val(st.value.args[0]))
+            root = aliases.get(x, x)
+            for nm in [n_ for n_ in list(env) if aliases.get(n_, n_) == root] + [x]:
+                env[nm] = merged  # every name of the same object sees the update
+            continue
         if not isinstance(st, (ast.Assign, ast.AnnAssign)) or st.value is None:
             continue
         targets = st.targets if isinstance(st, ast.Assign) else [st.target]
@@ -424,6 +434,10 @@ def populate_summary(stmts: list[ast.stmt]) -> tuple[dict[str, dict[str, object]
                     store(tt, vv)
             else:
                 store(t, val(v))
+                if isinstance(t, ast.Name) and isinstance(v, ast.Name):
+                    aliases[t.id] = aliases.get(v.id, v.id)
+                elif isinstance(t, ast.Name):
+                    aliases.pop(t.id, None)
     return tables, problems
 
 
